@@ -59,3 +59,20 @@ Theorem C14_after_done_refused : forall tr t old v e evs2,
   unfold_value t old (flatten tr ++ e :: evs2) = UFail (length (flat_map expand (flatten tr))).
 Proof. exact C17_after_done. Qed.
 Print Assumptions C14_after_done_refused.
+
+(* "either succeeds or returns an error": on the events of a COMPLETE document - any tree, any
+   target type, any previous content - the unfolder model decides: it completes, or fails at
+   an event of the document, or refuses the target type at setup; it never waits for more
+   (the fuel of unfold_value is proved adequate); and on a proper prefix it is never done. *)
+From SF Require Gotype.UnfoldStructProofs.
+Theorem C14_complete_stream_decided : forall t old tr,
+  (exists e, unfold_value t old (flatten tr) = USetupErr e) \/
+  (exists v, unfold_value t old (flatten tr) = UDone v) \/
+  (exists i, unfold_value t old (flatten tr) = UFail i /\ (i < SF.Gotype.UnfoldStructProofs.doc_len tr)%nat).
+Proof. exact SF.Gotype.UnfoldStructProofs.C14_complete_stream_decided. Qed.
+Print Assumptions C14_complete_stream_decided.
+
+Theorem C14_prefix_not_done : forall t old tr p q,
+  flatten tr = p ++ q -> q <> [] -> forall v, unfold_value t old p <> UDone v.
+Proof. exact SF.Gotype.UnfoldStructProofs.C14_prefix_not_done. Qed.
+Print Assumptions C14_prefix_not_done.
